@@ -58,6 +58,43 @@ theorem specRemove_gone (h : CmpLaws cmp) (k : α) (xs : List α) (hs : Sorted c
     · rename_i hy
       simp only [specFind]; rw [if_neg hy]; exact ih hs.2
 
+theorem specLower_sound (k : α) (xs : List α) (hs : Sorted cmp xs) (y : α)
+    (hf : specLower cmp k xs = some y) :
+    y ∈ xs ∧ cmp k y ≤ 0 ∧ ∀ z ∈ xs, cmp k z ≤ 0 → (z = y ∨ cmp y z < 0) := by
+  induction xs with
+  | nil => simp [specLower] at hf
+  | cons a as ih =>
+    simp only [Sorted, List.pairwise_cons] at hs
+    simp only [specLower] at hf
+    split at hf
+    · cases hf
+      refine ⟨by simp, by assumption, ?_⟩
+      intro z hz _
+      rcases List.mem_cons.1 hz with rfl | hz'
+      · exact Or.inl rfl
+      · exact Or.inr (hs.1 z hz')
+    · rename_i ha
+      obtain ⟨h1, h2, h3⟩ := ih hs.2 hf
+      refine ⟨by simp [h1], h2, ?_⟩
+      intro z hz hkz
+      rcases List.mem_cons.1 hz with rfl | hz'
+      · exact absurd hkz ha
+      · exact h3 z hz' hkz
+
+theorem specLower_none (k : α) (xs : List α) (hf : specLower cmp k xs = none) :
+    ∀ z ∈ xs, cmp k z > 0 := by
+  induction xs with
+  | nil => simp
+  | cons a as ih =>
+    simp only [specLower] at hf
+    split at hf
+    · cases hf
+    · rename_i ha
+      intro z hz
+      rcases List.mem_cons.1 hz with rfl | hz'
+      · omega
+      · exact ih hf z hz'
+
 section reach
 variable (h : CmpLaws cmp)
 include h
@@ -132,6 +169,26 @@ theorem reach_remove_find (ops : List (Op α)) (k : α) (nd : Bool) :
   simp only at e
   simp only [runModel]
   rw [← e, habs, specRemove_gone h k (abs _) hi.sorted]
+
+/-- lower bound in any reachable state: the answer is a member not below the key and it is the
+    least such member; no answer means every member is below the key -/
+theorem reach_lower (ops : List (Op α)) (k : α) :
+    let s := modelFinal cmp ({} : SetSt α) ops
+    (∀ y, (stepModel cmp s (.lower k)).2 = .lower (some y) →
+        y ∈ abs s ∧ cmp k y ≤ 0 ∧ ∀ z ∈ abs s, cmp k z ≤ 0 → (z = y ∨ cmp y z < 0))
+    ∧ ((stepModel cmp s (.lower k)).2 = .lower none → ∀ z ∈ abs s, cmp k z > 0) := by
+  intro s
+  have hi := reach_inv h ops
+  have hr := (step_refines h _ hi (.lower k)).1
+  simp only [stepSpec] at hr
+  have e : (stepModel cmp s (.lower k)).2 = .lower (specLower cmp k (abs s)) := by
+    have := congrArg Prod.snd hr; simpa using this.symm
+  rw [e]
+  constructor
+  · intro y hf
+    exact specLower_sound k (abs s) hi.sorted y (by simpa using hf)
+  · intro hf
+    exact specLower_none k (abs s) (by simpa using hf)
 
 end reach
 end Iauthd.Set
